@@ -223,3 +223,18 @@ package jobqueuecontroller
 //@        addN == old(addN) + 1 && addQ[old(addN)] == iface(w.independentQueue)
 //@        && addKey[old(addN)] == iface(nsname(unbox(obj, *execution.Job).Namespace, unbox(obj, *execution.Job).Name))
 //@   ensures [C06,C07] at-most-one: addN == old(addN) || addN == old(addN) + 1
+
+// The UpdateFunc NewInformerWorker registers for Jobs: every update event is routed like any other Job event (no update is
+// filtered away). NOT EXPRESSED: that the function value stored in the registered handler struct is this closure.
+//@ func NewInformerWorker$1
+//@   params arg0, newObj
+//@   tags C06, C07
+//@   requires w != nil && w.Context != nil && w.jobConfigQueue != nil && w.independentQueue != nil
+//@   modifies addN, addKey, addQ
+//@   ensures [C06] every-owned-job-update-requeues-the-jobconfig: typeis(newObj, *execution.Job) && jobconfig.ownerOf(unbox(newObj, *execution.Job), unbox(newObj, *execution.Job).Namespace) != nil ==>
+//@        addN == old(addN) + 1 && addQ[old(addN)] == iface(w.jobConfigQueue)
+//@        && addKey[old(addN)] == iface(nsname(jobconfig.ownerOf(unbox(newObj, *execution.Job), unbox(newObj, *execution.Job).Namespace).Namespace, jobconfig.ownerOf(unbox(newObj, *execution.Job), unbox(newObj, *execution.Job).Namespace).Name))
+//@   ensures [C07] every-independent-job-update-requeues-the-job: typeis(newObj, *execution.Job) && jobconfig.noControllerRef(unbox(newObj, *execution.Job)) ==>
+//@        addN == old(addN) + 1 && addQ[old(addN)] == iface(w.independentQueue)
+//@        && addKey[old(addN)] == iface(nsname(unbox(newObj, *execution.Job).Namespace, unbox(newObj, *execution.Job).Name))
+//@   ensures [C06,C07] at-most-one: addN == old(addN) || addN == old(addN) + 1
